@@ -85,7 +85,13 @@ VH_MAIN {
     if (err == NC_NOERR) {
         long long e = nc.begin_var, sumrec = 0; int lastrec = -1, firstfix = 1;
         ASSERT(nc.begin_var >= in.xsz_hdr, "the data section starts after the header");
-        if (nv > 0 && !in.redef) ASSERT(nc.begin_var >= in.xsz_hdr + in.h_minfree && nc.begin_var % H_ALIGN == 0, "create: header free space and header alignment honoured");
+        if (nv > 0 && !in.redef) {
+            ASSERT(nc.begin_var >= in.xsz_hdr + in.h_minfree, "create: header free space honoured");
+            /* the header alignment applies to the start of the fixed-size variables; a file with record variables only starts its
+             * data section at the record section (aligned by the record alignment, after the second free-space request) */
+            if (nfix > 0) ASSERT(nc.begin_var % H_ALIGN == 0, "create: header alignment honoured");
+            else ASSERT(nc.begin_var >= ((in.xsz_hdr + in.h_minfree + H_ALIGN - 1) / H_ALIGN) * H_ALIGN, "create, record variables only: the data section starts at or after the aligned header extent");
+        }
         for (int i = 0; i < NV; i++) if (i < nv && !in.is_rec[i]) {
             ASSERT((v[i].begin & 3) == 0, "fixed-size variable begins are 4-byte aligned");
             ASSERT(v[i].begin >= e, "fixed-size variables follow each other in definition order without overlap");
